@@ -354,11 +354,43 @@ Proof.
   apply andb_prop in Q. destruct Q as [Q _]. apply Nat.eqb_eq in Q. subst v. auto.
 Qed.
 
-Lemma inner_hist ifs : forall k s c s', Inv ifs s -> stack s <> [] -> stack_ok s -> SG s -> gate_ok (vv s) c ->
+(** ** the stack discipline WITHOUT split events: while no event is recorded, no entry of the corner stack below the top dies
+    (it is the left corner pushed by an S whose face carries a face_to_split_symbol_map_ entry: the strip that reaches its
+    face from elsewhere sees the S face as a visited right / left neighbour and records an event), and
+    |stack| = 1 + #S - #E (+ the offset [n] of the run).  [KI]: at the loop head of [inner] (the top entry is the current
+    strip's own); [KO]: between two strips. *)
+Definition GE (s : est) (e : option nat) : Prop :=
+  exists x y, e = Some x /\ nth (x / 3) (vf s) false = false /\ opp_at opp x = Some y /\ nth (y / 3) (vf s) false = true /\
+    split_symbol_on_face (f2s s) (y / 3) <> None.
+Definition CNT (n : Z) (s : est) : Prop := Z.of_nat (length (stack s)) = (ideal (syms s) + n)%Z.
+Definition KI (n : Z) (s : est) (c : nat) : Prop :=
+  evs s = [] -> NoDup (tl (stack s)) /\ Forall (GE s) (tl (stack s)) /\ ~ In (Some c) (tl (stack s)) /\ CNT n s.
+Definition KO (n : Z) (s : est) : Prop :=
+  evs s = [] -> NoDup (stack s) /\ Forall (GE s) (tl (stack s)) /\
+    (forall top r, stack s = top :: r -> exists x, top = Some x /\ nth (x / 3) (vf s) false = false) /\ CNT n s.
+
+Lemma GE_step s s' c e : GE s e -> (forall x, e = Some x -> x / 3 <> c / 3) -> vf s' = upd (vf s) (c / 3) true ->
+  (forall f, split_symbol_on_face (f2s s) f <> None -> split_symbol_on_face (f2s s') f <> None) -> GE s' e.
+Proof.
+  intros (x & y & -> & A & B & C & D) N Ef Es. exists x, y. split; auto. rewrite Ef.
+  split; [rewrite nth_upd_neq; auto; intro Q; apply (N x eq_refl); auto|].
+  split; auto. split; [apply (proj2 (vle_upd (vf s) (c / 3))); auto|auto].
+Qed.
+Lemma check_split_evs s e o : evs (check_split s e o) = [] ->
+  evs s = [] /\ (forall y, o = Some y -> split_symbol_on_face (f2s s) (y / 3) = None).
+Proof.
+  unfold check_split. destruct o as [oc|]; [|intros H; split; auto; intros; discriminate].
+  destruct (split_symbol_on_face (f2s s) (oc / 3)) eqn:E; cbn; intros H; [discriminate|]. split; auto. intros y Q. injection Q as <-. exact E.
+Qed.
+Lemma check_split_f2s s e o : f2s (check_split s e o) = f2s s.
+Proof. unfold check_split. destruct o; auto. destruct (split_symbol_on_face _ _); auto. Qed.
+
+Lemma inner_hist_k ifs n : forall k s c s', Inv ifs s -> stack s <> [] -> stack_ok s -> SG s -> gate_ok (vv s) c ->
   nth (c / 3) (vf s) false = false -> gatev (vf s) c -> ucnt (vf s) <= k ->
   hist ifs (Some c) (pcc s) (syms s) -> NSI s ->
   inner c2v opp hid k s (Some c) = EOk s' ->
-  Inv ifs s' /\ stack_ok s' /\ SG s' /\ (forall nxt, hist ifs nxt (pcc s') (syms s')) /\ vle (vf s) (vf s') /\ NSI s'.
+  Inv ifs s' /\ stack_ok s' /\ SG s' /\ (forall nxt, hist ifs nxt (pcc s') (syms s')) /\ vle (vf s) (vf s') /\ NSI s' /\
+  (evs s' = [] -> evs s = []) /\ (KI n s c -> KO n s').
 Proof.
   induction k as [|k' IH]; intros s c s' I St SO Sg G Hf Gv Uk Hh Ns0 Ein.
   { exfalso. destruct G as (Hc & _). pose proof (i_base _ _ _ _ _ _ I) as B0.
@@ -405,14 +437,43 @@ Proof.
   { intros x E. apply (right_gate (vv s2) c x Hc E F5 Gp). }
   assert (Glc : forall x, lc = Some x -> gate_ok (vv s2) x /\ x / 3 <> c / 3).
   { intros x E. apply (left_gate (vv s2) c x Hc E F5 Gn). }
+  assert (Ev2 : evs s2 = evs s /\ f2s s2 = f2s s).
+  { unfold s2, mark_state. cbv zeta. destruct (nth (vtx c2v c) (vv s) false); split; reflexivity. }
+  (* a stack entry below the top in the face of c: its gate is the right or the left edge of c, across it lies a visited face
+     with a split-symbol entry, and the tip vertex of c is visited *)
+  assert (Hit : KI n s c -> evs s = [] -> forall x, In (Some x) (tl (stack s)) -> x / 3 = c / 3 ->
+            exists y, nth (y / 3) (vf s2) false = true /\ split_symbol_on_face (f2s s2) (y / 3) <> None /\
+                      (rc = Some y \/ lc = Some y) /\ nth (vtx c2v c) (vv s) false = true).
+  { intros K0 E0 x Hx Fx. destruct (K0 E0) as (_ & Kg & Kc & _). rewrite Forall_forall in Kg.
+    destruct (Kg _ Hx) as (x' & y & Q & A & B & C & D). inversion Q; subst x'.
+    exists y. split; [apply (proj2 M2); auto|]. split; [rewrite (proj2 Ev2); auto|].
+    assert (Gx : gate_ok (vv s) x).
+    { assert (Hin : In (Some x) (stack s)) by (destruct (stack s); [destruct Hx|right; exact Hx]).
+      unfold stack_ok, EbEncoder_proofs.stack_ok in SO. rewrite Forall_forall in SO. apply (SO (Some x)); auto. }
+    destruct Gx as (_ & _ & Gx1 & Gx2).
+    destruct (face_corners c x Fx) as [->|[->| ->]].
+    - exfalso. apply Kc. exact Hx.
+    - split; [left; exact B|]. rewrite prev_next in Gx2. exact Gx2.
+    - split; [right; exact B|]. rewrite next_prev in Gx1. exact Gx1. }
+  assert (Keep : forall sN, KI n s c -> evs s = [] -> (forall x, In (Some x) (tl (stack s)) -> x / 3 <> c / 3) -> vf sN = vf s2 ->
+            (forall f, split_symbol_on_face (f2s s) f <> None -> split_symbol_on_face (f2s sN) f <> None) ->
+            Forall (GE sN) (tl (stack s))).
+  { intros sN K0 E0 NH EfN EsN. destruct (K0 E0) as (_ & Kg & _). rewrite Forall_forall in *. intros e He.
+    apply (GE_step s sN c e); auto. intros x ->. apply NH; auto. rewrite EfN. exact F1. }
+  assert (NotIn : KI n s c -> evs s = [] -> forall x z, opp_at opp z = Some x -> z / 3 = c / 3 -> ~ In (Some x) (tl (stack s))).
+  { intros K0 E0 x z Ez Fz Hx. destruct (K0 E0) as (_ & Kg & _). rewrite Forall_forall in Kg.
+    destruct (Kg _ Hx) as (x' & y & Q & A & B & C & D). inversion Q; subst x'.
+    destruct (opp_facts _ _ Ez) as (Ez' & _). rewrite Ez' in B. inversion B; subst y. rewrite Fz in C. congruence. }
   (* the recursive call *)
   assert (Rec : forall s3 y0 nx, Inv ifs s3 -> stack s3 = stack s -> vv s3 = vv s2 -> vf s3 = vf s2 -> pcc s3 = c :: pcc s ->
             syms s3 = y0 :: syms s -> fact ifs (Some nx) c y0 (pcc s) -> gate_ok (vv s2) nx -> nx / 3 <> c / 3 ->
             nth (nx / 3) (vf s2) false = false -> gatev (vf s2) nx -> NSI s3 ->
+            (evs s3 = [] -> evs s = []) -> (KI n s c -> KI n s3 nx) ->
             inner c2v opp hid k' s3 (Some nx) = EOk s' ->
-            Inv ifs s' /\ stack_ok s' /\ SG s' /\ (forall nxt, hist ifs nxt (pcc s') (syms s')) /\ vle (vf s) (vf s') /\ NSI s').
-  { intros s3 y0 nx I3 St3 Vv3 Vf3 Pc3 Sy3 Fc Gx Nx Ux Gvx Ns3 E3.
-    destruct (IH s3 nx s') as (R1 & R2 & R3 & R4 & R5 & R6); auto.
+            Inv ifs s' /\ stack_ok s' /\ SG s' /\ (forall nxt, hist ifs nxt (pcc s') (syms s')) /\ vle (vf s) (vf s') /\ NSI s' /\
+            (evs s' = [] -> evs s = []) /\ (KI n s c -> KO n s')).
+  { intros s3 y0 nx I3 St3 Vv3 Vf3 Pc3 Sy3 Fc Gx Nx Ux Gvx Ns3 Ev3 K3 E3.
+    destruct (IH s3 nx s') as (R1 & R2 & R3 & R4 & R5 & R6 & R7 & R8); auto.
     - rewrite St3; auto.
     - unfold stack_ok, EbEncoder_proofs.stack_ok. rewrite St3, Vv3. auto.
     - unfold SG. rewrite St3, Vf3. auto.
@@ -421,7 +482,7 @@ Proof.
     - rewrite Vf3. auto.
     - rewrite Vf3. lia.
     - rewrite Pc3, Sy3. constructor; auto.
-    - split; auto. split; auto. split; auto. split; auto. split; auto. rewrite Vf3 in R5. eapply vle_trans; eauto. }
+    - split; auto. split; auto. split; auto. split; auto. split; [rewrite Vf3 in R5; eapply vle_trans; eauto|]. split; auto. }
   destruct (negb (nth (vtx c2v c) (vv s) false) && negb (is_some (nth (vtx c2v c) hid None))) eqn:EC.
   - (* TOPOLOGY_C *)
     apply andb_prop in EC. destruct EC as [E1 E2]. apply negb_true_iff in E1, E2.
@@ -443,6 +504,15 @@ Proof.
       intros x Hx _ Vx Hin. apply (b_in _ _ _ _ _ _ B0) in Hin. destruct Hin as [_ Hin]. rewrite (Fresh x Hx Vx) in Hin. discriminate.
     + apply (Gnb (next_c c) r0); auto. apply next_face.
     + apply NSI_emit; auto.
+    + cbn [emit with_syms evs]. rewrite (proj1 Ev2). auto.
+    + intros K0 E0. cbn [emit with_syms evs] in E0. rewrite (proj1 Ev2) in E0.
+      assert (NH : forall x, In (Some x) (tl (stack s)) -> x / 3 <> c / 3).
+      { intros x Hx Fx. destruct (Hit K0 E0 x Hx Fx) as (_ & _ & _ & _ & Vc). congruence. }
+      destruct (K0 E0) as (Kn & _ & _ & Kc).
+      cbn [emit with_syms stack]. rewrite F2. split; auto.
+      split; [apply Keep; auto; intros f; cbn [emit with_syms f2s]; rewrite (proj2 Ev2); auto|].
+      split; [apply (NotIn K0 E0 r0 (next_c c)); auto; apply next_face|].
+      unfold CNT in *. cbn [emit with_syms stack syms]. rewrite F2, Sy2. cbn [ideal]. unfold delta. cbn. lia.
   - (* not C *)
 
     assert (FV : forall vfl o, length vfl = nf -> (forall x, o = Some x -> x < 3 * nf) ->
@@ -484,7 +554,29 @@ Proof.
         { intros nxt. cbn [with_stack pcc syms emit with_syms]. destruct P4 as [-> ->]. destruct P3 as [-> ->]. rewrite Pc2, Sy2.
           constructor; [auto|]. split; [auto|]. split; [auto|]. split; [auto|]. cbv zeta. left. auto. }
         split; [cbn [with_stack vf emit with_syms]; rewrite D1, C1; auto|].
-        apply NSI_stack. apply (NSI_emit s4 TOPOLOGY_E). apply NSI_check. apply NSI_check. auto.
+        split; [apply NSI_stack; apply (NSI_emit s4 TOPOLOGY_E); apply NSI_check; apply NSI_check; auto|].
+        assert (EvE : evs (with_stack (emit s4 TOPOLOGY_E) r) = [] ->
+                  evs s = [] /\ (forall y, rc = Some y -> split_symbol_on_face (f2s s2) (y / 3) = None) /\
+                  (forall y, lc = Some y -> split_symbol_on_face (f2s s2) (y / 3) = None)).
+        { cbn [with_stack emit with_syms evs]. intros E0. destruct (check_split_evs _ _ _ E0) as (E3 & N3).
+          destruct (check_split_evs _ _ _ E3) as (E2 & N2). rewrite (proj1 Ev2) in E2. split; auto. split; auto.
+          intros y Q. rewrite <- (check_split_f2s s2 RIGHT_FACE_EDGE rc). apply N3; auto. }
+        split; [intros E0; apply (EvE E0)|].
+        intros K0 E0. destruct (EvE E0) as (E2 & NR & NL).
+        assert (NH : forall x, In (Some x) (tl (top :: r)) -> x / 3 <> c / 3).
+        { intros x Hx Fx. destruct (Hit K0 E2 x Hx Fx) as (y & Vy & Sy & [Q|Q] & _).
+          - apply Sy. apply NR. exact Q.
+          - apply Sy. apply NL. exact Q. }
+        assert (Kg' : Forall (GE (with_stack (emit s4 TOPOLOGY_E) r)) (tl (top :: r))).
+        { apply (Keep _ K0 E2 NH); [cbn [with_stack emit with_syms vf]; rewrite D1, C1; auto|].
+          intros f. cbn [with_stack emit with_syms f2s]. unfold s4, s3. rewrite !check_split_f2s, (proj2 Ev2). auto. }
+        cbn [tl] in Kg'.
+        pose proof (K0 E2) as K0'. unfold CNT in K0'. rewrite Est in K0'. destruct K0' as (Kn & _ & _ & Kc). cbn [tl] in Kn.
+        cbn [with_stack stack]. split; auto. split; [destruct r; [constructor|inversion Kg'; auto]|].
+        split.
+        { intros top0 r0 Q. rewrite Q in Kg'. inversion Kg' as [|e0 l0' (x & y & Q1 & Q2 & _) _ [Q3 Q4]]. exists x. split; auto. }
+        unfold CNT in *. cbn [with_stack emit with_syms stack syms length]. destruct P4 as [_ ->]. destruct P3 as [_ ->]. rewrite Sy2.
+        cbn [ideal length] in *. unfold delta. cbn. lia.
       * (* R *)
         destruct (Hlf eq_refl) as (l0 & El & Hl0). rewrite El in Ein.
         destruct (Glc l0 El) as (Gl & Nl).
@@ -497,6 +589,17 @@ Proof.
         -- rewrite <- C1. auto.
         -- apply (Gnb (prev_c c) l0); auto. apply prev_face.
         -- apply NSI_emit. apply NSI_check. auto.
+        -- cbn [emit with_syms evs]. intros E0. destruct (check_split_evs _ _ _ E0) as (E2 & _). rewrite (proj1 Ev2) in E2. auto.
+        -- intros K0 E0. cbn [emit with_syms evs] in E0. destruct (check_split_evs _ _ _ E0) as (E2 & NR). rewrite (proj1 Ev2) in E2.
+           assert (NH : forall x, In (Some x) (tl (stack s)) -> x / 3 <> c / 3).
+           { intros x Hx Fx. destruct (Hit K0 E2 x Hx Fx) as (y & Vy & Sy & [Q|Q] & _).
+             - apply Sy. apply NR. exact Q.
+             - rewrite El in Q. inversion Q; subst y. rewrite C1 in Hl0. congruence. }
+           destruct (K0 E2) as (Kn & _ & _ & Kc).
+           cbn [emit with_syms stack]. rewrite C3, F2. split; auto.
+           split; [apply (Keep _ K0 E2 NH); [cbn [emit with_syms vf]; auto|intros f; cbn [emit with_syms f2s]; unfold s3; rewrite check_split_f2s, (proj2 Ev2); auto]|].
+           split; [apply (NotIn K0 E2 l0 (prev_c c)); auto; apply prev_face|].
+           unfold CNT in *. cbn [emit with_syms stack syms]. rewrite C3, F2. destruct P3 as [_ ->]. rewrite Sy2. cbn [ideal]. unfold delta. cbn. lia.
     + (* right not visited *)
       destruct (Hrf eq_refl) as (r0 & Er & Hr0).
       destruct (FV (vf s2) lc Lf2 Llt) as (lfv & Elf & Hlf & Hlt). rewrite Elf in Ein. cbn [ebind] in Ein.
@@ -518,6 +621,17 @@ Proof.
         -- split; [auto|]. split; [auto|]. split; [auto|]. cbv zeta. right. right. left. split; auto. split; [discriminate|]. split; auto.
         -- apply (Gnb (next_c c) r0); auto. apply next_face.
         -- apply NSI_emit. apply NSI_check. auto.
+        -- cbn [emit with_syms evs]. intros E0. destruct (check_split_evs _ _ _ E0) as (E2 & _). rewrite (proj1 Ev2) in E2. auto.
+        -- intros K0 E0. cbn [emit with_syms evs] in E0. destruct (check_split_evs _ _ _ E0) as (E2 & NL). rewrite (proj1 Ev2) in E2.
+           assert (NH : forall x, In (Some x) (tl (stack s)) -> x / 3 <> c / 3).
+           { intros x Hx Fx. destruct (Hit K0 E2 x Hx Fx) as (y & Vy & Sy & [Q|Q] & _).
+             - rewrite Er in Q. inversion Q; subst y. congruence.
+             - apply Sy. apply NL. exact Q. }
+           destruct (K0 E2) as (Kn & _ & _ & Kc).
+           cbn [emit with_syms stack]. rewrite C3, F2. split; auto.
+           split; [apply (Keep _ K0 E2 NH); [cbn [emit with_syms vf]; auto|intros f; cbn [emit with_syms f2s]; unfold s3; rewrite check_split_f2s, (proj2 Ev2); auto]|].
+           split; [apply (NotIn K0 E2 r0 (next_c c)); auto; apply next_face|].
+           unfold CNT in *. cbn [emit with_syms stack syms]. rewrite C3, F2. destruct P3 as [_ ->]. rewrite Sy2. cbn [ideal]. unfold delta. cbn. lia.
       * (* S *)
         destruct (Hlf eq_refl) as (l0 & El & Hl0).
         assert (SF : exists x, x < 3 * nf /\ nondeg x /\ vtx c2v x = vtx c2v c /\ x <> c /\
@@ -538,17 +652,18 @@ Proof.
         assert (H4 : exists s4, (match nth (vtx c2v c) hid None with
                   | Some hole => b <-- eget (vhole s3) hole ;; if b then EOk s3 else encode_hole c2v opp hid s3 c false
                   | None => EOk s3 end) = EOk s4 /\ Inv ifs s4 /\ vle (vv s3) (vv s4) /\ vf s4 = vf s3 /\ stack s4 = stack s3 /\ syms s4 = syms s3 /\ pcc s4 = pcc s3 /\
-                  VV s4).
+                  VV s4 /\ evs s4 = evs s3 /\ f2s s4 = f2s s3).
         { assert (Lh3 : length (vhole s3) = nh) by apply (i_base _ _ _ _ _ _ I3).
           destruct (nth (vtx c2v c) hid None) as [hole|] eqn:Eh.
           - rewrite (eget_lt (vhole s3) hole false) by (rewrite Lh3; eapply Hhr; eauto). cbn [ebind].
             destruct (nth hole (vhole s3) false).
-            + exists s3. split; [reflexivity|]. split; [exact I3|]. split; [apply vle_refl|]. repeat split; auto. apply Ns2.
+            + exists s3. split; [reflexivity|]. split; [exact I3|]. split; [apply vle_refl|]. split; auto. split; auto. split; auto. split; auto. split; [apply Ns2|auto].
             + destruct (EH s3 c false) as (vv' & vh' & E1 & E2 & E3 & _); auto; try apply (i_base _ _ _ _ _ _ I3). congruence.
-              rewrite E1. eexists. split; [reflexivity|]. split; [apply Inv_vv; auto|]. split; [exact E2|]. repeat split; auto.
+              rewrite E1. eexists. split; [reflexivity|]. split; [apply Inv_vv; auto|]. split; [exact E2|]. split; auto. split; auto. split; auto. split; auto.
+              split; [|auto].
               intros v Hv0. destruct (encode_hole_vv s3 c false _ Hc Hd E1 v Hv0) as [X|X]; auto. apply (proj2 Ns2). exact X.
-          - exists s3. split; [reflexivity|]. split; [exact I3|]. split; [apply vle_refl|]. repeat split; auto. apply Ns2. }
-        destruct H4 as (s4 & E4 & I4 & M4 & Vf4 & St4 & Sy4 & Pc4 & V4). rewrite E4 in Ein. cbn [ebind] in Ein.
+          - exists s3. split; [reflexivity|]. split; [exact I3|]. split; [apply vle_refl|]. split; auto. split; auto. split; auto. split; auto. split; [apply Ns2|auto]. }
+        destruct H4 as (s4 & E4 & I4 & M4 & Vf4 & St4 & Sy4 & Pc4 & V4 & Ev4 & Fs4). rewrite E4 in Ein. cbn [ebind] in Ein.
         assert (Ns : syms s4 <> []) by (rewrite Sy4; discriminate).
         pose proof (Inv_f2s ifs s4 (c / 3) I4 Ns) as I5.
         set (s5 := with_f2s s4 ((c / 3, last_id s4) :: f2s s4)) in *.
@@ -573,7 +688,53 @@ Proof.
           rewrite Pc2, Sy2. constructor; [auto|]. split; [auto|]. split; [auto|]. split; [auto|]. cbv zeta. right. right. right. right.
           split; [reflexivity|]. exact SF. }
         split; [cbn [with_stack vf s5 with_f2s]; rewrite Vf4; cbn [s3 vf with_nsplit emit with_syms]; auto|].
-        apply NSI_S. cbn [with_stack syms s5 with_f2s]. rewrite Sy4. cbn. auto. exact V4.
+        split; [apply NSI_S; [cbn [with_stack syms s5 with_f2s]; rewrite Sy4; cbn; auto|exact V4]|].
+        assert (EvS : evs (with_stack s5 (rc :: lc :: r)) = evs s).
+        { cbn [with_stack s5 with_f2s evs]. rewrite Ev4. cbn [s3 with_nsplit emit with_syms evs]. apply Ev2. }
+        split; [rewrite EvS; auto|].
+        intros K0 E0. rewrite EvS in E0.
+        assert (Vf5 : vf (with_stack s5 (rc :: lc :: r)) = vf s2).
+        { cbn [with_stack s5 with_f2s vf]. rewrite Vf4. reflexivity. }
+        assert (Fs5 : f2s (with_stack s5 (rc :: lc :: r)) = (c / 3, last_id s4) :: f2s s).
+        { cbn [with_stack s5 with_f2s f2s]. rewrite Fs4. cbn [s3 with_nsplit emit with_syms f2s]. rewrite (proj2 Ev2). reflexivity. }
+        assert (NH : forall x, In (Some x) (tl (top :: r)) -> x / 3 <> c / 3).
+        { intros x Hx Fx. destruct (Hit K0 E0 x Hx Fx) as (y & Vy & _ & [Q|Q] & _).
+          - rewrite Er in Q. inversion Q; subst y. congruence.
+          - rewrite El in Q. inversion Q; subst y. congruence. }
+        assert (Kg' : Forall (GE (with_stack s5 (rc :: lc :: r))) (tl (top :: r))).
+        { apply (Keep _ K0 E0 NH); [exact Vf5|].
+          intros f Nf. rewrite Fs5. cbn [split_symbol_on_face]. destruct (c / 3 =? f); [discriminate|exact Nf]. }
+        cbn [tl] in Kg'.
+        pose proof (K0 E0) as K0'. unfold CNT in K0'. rewrite Est in K0'. destruct K0' as (Kn & _ & _ & Kc). cbn [tl] in Kn.
+        destruct (Grc r0 Er) as (_ & Nr & _). destruct (Glc l0 El) as (_ & Nl).
+        assert (Fc3 : split_symbol_on_face (f2s (with_stack s5 (rc :: lc :: r))) (c / 3) <> None).
+        { rewrite Fs5. cbn [split_symbol_on_face]. rewrite Nat.eqb_refl. discriminate. }
+        assert (Vc3 : nth (c / 3) (vf s2) false = true) by (rewrite F1; apply nth_upd_eq; lia).
+        assert (Gr0 : GE (with_stack s5 (rc :: lc :: r)) (Some r0)).
+        { exists r0, (next_c c). split; auto. rewrite Vf5. split; auto. split; [apply (opp_facts _ _ Er)|]. rewrite next_face. split; auto. }
+        assert (Gl0 : GE (with_stack s5 (rc :: lc :: r)) (Some l0)).
+        { exists l0, (prev_c c). split; auto. rewrite Vf5. split; auto. split; [apply (opp_facts _ _ El)|]. rewrite prev_face. split; auto. }
+        assert (Nr0 : ~ In (Some r0) r) by (apply (NotIn K0 E0 r0 (next_c c)); auto; apply next_face).
+        assert (Nl0 : ~ In (Some l0) r) by (apply (NotIn K0 E0 l0 (prev_c c)); auto; apply prev_face).
+        cbn [with_stack stack tl]. rewrite Er, El. split.
+        { constructor; [|constructor; auto]. intros [Q|Q]; [|exact (Nr0 Q)]. inversion Q; subst l0.
+          assert (X : r0 / 3 <> r0 / 3); [|congruence].
+          apply (nbr_next_distinct c2v opp nf Hlen OK (next_c c) r0 r0); auto. rewrite next_next. exact El. }
+        split; [constructor; auto|].
+        split; [intros top0 rr Q; injection Q as <- _; exists r0; split; auto; cbn [with_stack vf s5 with_f2s]; rewrite Vf4; exact Hr0|].
+        unfold CNT in *. cbn [with_stack stack syms s5 with_f2s length]. rewrite Sy4. cbn [s3 with_nsplit emit with_syms syms]. rewrite Sy2.
+        cbn [ideal length] in *. unfold delta, TOPOLOGY_S. cbn. lia.
+Qed.
+
+Lemma inner_hist ifs : forall k s c s', Inv ifs s -> stack s <> [] -> stack_ok s -> SG s -> gate_ok (vv s) c ->
+  nth (c / 3) (vf s) false = false -> gatev (vf s) c -> ucnt (vf s) <= k ->
+  hist ifs (Some c) (pcc s) (syms s) -> NSI s ->
+  inner c2v opp hid k s (Some c) = EOk s' ->
+  Inv ifs s' /\ stack_ok s' /\ SG s' /\ (forall nxt, hist ifs nxt (pcc s') (syms s')) /\ vle (vf s) (vf s') /\ NSI s'.
+Proof.
+  intros k s c s' I St SO Sg G Hf Gv Uk Hh Ns0 Ein.
+  destruct (inner_hist_k ifs 0%Z k s c s') as (A1 & A2 & A3 & A4 & A5 & A6 & _); auto.
+  split; auto.
 Qed.
 
 (** the C entries: no start face of [ifs'] contains the tip vertex *)
@@ -634,6 +795,53 @@ Proof.
   - unfold SG. cbn [with_stack stack vf]. constructor; auto.
 Qed.
 
+(** the stack discipline along [outer] / [from_corner]: without split event no entry is popped dead, the run ends with the
+    count |stack| = 0 = ideal + n *)
+Lemma outer_hist_k ifs n : forall fuel s s', Inv ifs s -> stack_ok s -> SG s -> (forall nxt, hist ifs nxt (pcc s) (syms s)) -> NSI s ->
+  outer c2v opp hid fuel s = EOk s' ->
+  stack s' = [] /\ (evs s' = [] -> evs s = []) /\ (KO n s -> KO n s').
+Proof.
+  induction fuel as [|k IH]; intros s s' I SO Sg Hh Ns E; cbn [outer] in E; [discriminate|].
+  destruct (stack s) as [|top r] eqn:St.
+  - inversion E; subst. auto.
+  - assert (Pop : outer c2v opp hid k (with_stack s r) = EOk s' -> (KO n s -> evs s = [] -> False) ->
+       stack s' = [] /\ (evs s' = [] -> evs s = []) /\ (KO n s -> KO n s')).
+    { intros E' Dead. destruct (IH (with_stack s r) s') as (A5 & A6 & A7); [apply Inv_stack; auto| | |exact Hh|exact Ns|exact E'|].
+      - unfold stack_ok, EbEncoder_proofs.stack_ok in *. cbn [with_stack stack vv]. rewrite St in SO. inversion SO; auto.
+      - unfold SG in *. cbn [with_stack stack vf]. rewrite St in Sg. inversion Sg; auto.
+      - split; auto. split; [exact A6|]. intros K0. apply A7. intros E0. exfalso. apply (Dead K0 E0). }
+    destruct top as [c|].
+    2:{ apply Pop; auto. intros K0 E0. destruct (K0 E0) as (_ & _ & T & _). destruct (T _ _ St) as (x & Q & _). discriminate. }
+    assert (G : gate_ok (vv s) c). { unfold stack_ok, EbEncoder_proofs.stack_ok in SO. rewrite St in SO. inversion SO; auto. }
+    assert (Hf3 : c / 3 < nf) by (destruct G; apply Nat.div_lt_upper_bound; lia).
+    rewrite (eget_lt (vf s) (c / 3) false) in E by (rewrite (b_vf _ _ _ _ _ _ (i_base _ _ _ _ _ _ I)); auto). cbn [ebind] in E.
+    destruct (nth (c / 3) (vf s) false) eqn:Ef.
+    { apply Pop; auto. intros K0 E0. destruct (K0 E0) as (_ & _ & T & _). destruct (T _ _ St) as (x & Q & Ux). injection Q as <-. congruence. }
+    rewrite NF_eq in E.
+    destruct (inner c2v opp hid nf s (Some c)) as [s1| | |] eqn:E1; cbn [ebind] in E; try discriminate.
+    assert (Gv : gatev (vf s) c). { unfold SG in Sg. rewrite St in Sg. inversion Sg; auto. }
+    assert (Uk : ucnt (vf s) <= nf). { rewrite <- (b_vf _ _ _ _ _ _ (i_base _ _ _ _ _ _ I)). unfold ucnt. lia. }
+    destruct (inner_hist_k ifs n nf s c s1) as (I1 & SO1 & Sg1 & H1 & M1 & N1 & V1 & Kk1); auto. { rewrite St. discriminate. }
+    destruct (IH s1 s' I1 SO1 Sg1 H1 N1 E) as (A5 & A6 & A7).
+    split; auto. split; [auto|]. intros K0. apply A7. apply Kk1.
+    intros E0. destruct (K0 E0) as (Kn & Kg & _ & Kc). unfold CNT in *. rewrite St in *. cbn [tl] in *.
+    inversion Kn as [|a l Hnin Hnd]. split; [exact Hnd|]. split; [exact Kg|]. split; [exact Hnin|exact Kc].
+Qed.
+
+Lemma from_corner_hist_k ifs n s c s' : Inv ifs s -> gate_ok (vv s) c -> gatev (vf s) c ->
+  (forall nxt, hist ifs nxt (pcc s) (syms s)) -> NSI s -> nth (c / 3) (vf s) false = false ->
+  from_corner c2v opp hid s (Some c) = EOk s' ->
+  (evs s = [] -> (1 = ideal (syms s) + n)%Z) -> evs s' = [] -> (0 = ideal (syms s') + n)%Z.
+Proof.
+  intros I G Gv Hh Ns Hf E Hn E0. unfold from_corner in E.
+  destruct (outer_hist_k ifs n (outer_fuel c2v) (with_stack s [Some c]) s') as (A5 & A6 & A7); [apply Inv_stack; auto| | |exact Hh|exact Ns|exact E|].
+  - unfold stack_ok, EbEncoder_proofs.stack_ok. cbn [with_stack stack vv]. constructor; auto.
+  - unfold SG. cbn [with_stack stack vf]. constructor; auto.
+  - assert (K0 : KO n (with_stack s [Some c])).
+    { intros E1. cbn [with_stack stack tl vf evs] in *. split; [constructor; [intros []|constructor]|]. split; [constructor|].
+      split; [intros top r Q; injection Q as <- _; exists c; auto|]. unfold CNT. cbn [with_stack stack syms length]. apply Hn. exact E1. }
+    destruct (A7 K0 E0) as (_ & _ & _ & Kc). unfold CNT in Kc. rewrite A5 in Kc. cbn [length] in Kc. lia.
+Qed.
 
 (** what a run appends to the history *)
 Lemma outer_block ifs : forall fuel s s', Inv ifs s -> stack_ok s -> SG s -> (forall nxt, hist ifs nxt (pcc s) (syms s)) -> NSI s ->
@@ -708,22 +916,25 @@ Definition IDJ (inits : list nat) : Prop :=
   forall m1 m2 ic1 ic2, m1 < m2 -> nth_error (rev inits) m1 = Some ic1 -> nth_error (rev inits) m2 = Some ic2 ->
     forall x1 x2, x1 < 3 * nf -> x2 < 3 * nf -> x1 / 3 = ic1 / 3 -> x2 / 3 = ic2 / 3 -> vtx c2v x1 <> vtx c2v x2.
 
+(** with one start-face bit and no split event: #E = #S + 1 *)
+Definition CNTE (bits : list bool) (s : est) : Prop :=
+  (bits = [] -> syms s = []) /\ (length bits = 1 -> evs s = [] -> syms s = [] \/ ideal (syms s) = 0%Z).
 Definition ECH (st : eres (est * list bool * list nat)) : Prop :=
   forall s bits inits, st = EOk (s, bits, inits) ->
     (forall nxt, hist (faces (rev inits)) nxt (pcc s) (syms s)) /\ NSI s /\
-    RUNS opp IFc bits inits (pcc s) (syms s) /\ IDJ inits.
+    RUNS opp IFc bits inits (pcc s) (syms s) /\ IDJ inits /\ CNTE bits s.
 
 Lemma ec_corner_hist done st c_id : c_id < 3 * nf -> ECinv c2v opp nf nv nh done st -> ECH st -> ECH (ec_corner c2v opp hid st c_id).
 Proof.
-  intros Hc (s & bits & inits & -> & I & Fi & Cb & CL & DN & T3) HE. destruct (HE s bits inits eq_refl) as (Hh & Ns & HR & HD). clear HE.
+  intros Hc (s & bits & inits & -> & I & Fi & Cb & CL & DN & T3) HE. destruct (HE s bits inits eq_refl) as (Hh & Ns & HR & HD & HC). clear HE.
   unfold ec_corner. cbn [ebind].
   assert (Hf3 : c_id / 3 < nf) by (apply Nat.div_lt_upper_bound; lia).
   pose proof (i_base _ _ _ _ _ _ I) as B0.
   rewrite (eget_lt (vf s) (c_id / 3) false) by (rewrite (b_vf _ _ _ _ _ _ B0); auto). cbn [ebind].
   destruct (nth (c_id / 3) (vf s) false) eqn:Ef.
-  { intros s0 b0 i0 E. inversion E; subst. auto. }
+  { intros s0 b0 i0 E. inversion E; subst. split; auto. }
   destruct (is_degenerated c2v (c_id / 3)) eqn:Ed.
-  { intros s0 b0 i0 E. inversion E; subst. auto. }
+  { intros s0 b0 i0 E. inversion E; subst. split; auto. }
   destruct (FI _ Hf3 Ed) as (start & interior & E1 & Hs & HI & HB). rewrite E1. cbn [ebind].
   destruct interior.
   - destruct (HI eq_refl) as (HI1 & HIall). clear HB HI. rename HI1 into HI.
@@ -800,7 +1011,10 @@ Proof.
     { intros x0 E0. rewrite Eo' in E0. inversion E0; subst x0. rewrite next_face, HI, Vf1. apply nth_upd_eq. rewrite (b_vf _ _ _ _ _ _ B0). auto. }
     destruct (from_corner_hist _ s1 oc s' I1 Go) as (R1 & R2 & R3 & R4); auto.
     destruct (from_corner_block _ s1 oc s' I1 Go Gvo H1 Ns1 Eov E') as (Pn & Yn & K1 & K2 & K3 & K4 & K5 & K6).
-    intros s0 b0 i0 E. inversion E as [[X1 X2 X3]]. clear E. subst s0 b0 i0. split; [auto|]. split; [auto|]. split.
+    intros s0 b0 i0 E. inversion E as [[X1 X2 X3]]. clear E. subst s0 b0 i0. split; [auto|]. split; [auto|]. split; [|split].
+    3:{ split; [discriminate|]. intros Lb E0. cbn [length] in Lb. assert (Eb : bits = []) by (destruct bits; [auto|cbn in Lb; lia]).
+        right. pose proof (from_corner_hist_k _ 0%Z s1 oc s' I1 Go Gvo H1 Ns1 Eov E') as Cn.
+        rewrite !Z.add_0_r in Cn. symmetry. apply Cn; auto. intros _. cbn [s1 with_vf with_vv syms]. rewrite (proj1 HC Eb). reflexivity. }
     { rewrite K1, K2. cbn [s1 with_vf with_vv pcc syms]. apply (R_run opp IFc true bits inits (next_c start :: inits)); auto.
       exists (next_c start). split; auto. split; [rewrite K5; auto|]. split; [apply next_lt; auto|].
       intros x Hx Fx. rewrite next_face, HI in Fx. destruct (HIall x Hx Fx). auto. }
@@ -847,8 +1061,11 @@ Proof.
         - rewrite <- (prev_face yy), <- F6. auto. }
       rewrite F1 in V2. congruence. }
     destruct (from_corner_block _ s1 start s' I1 Gs Gvs Hh Ns1 Us E') as (Pn & Yn & K1 & K2 & K3 & K4 & K5 & K6).
-    intros s0 b0 i0 E. inversion E as [[X1 X2 X3]]. clear E. subst s0 b0 i0. split; [auto|]. split; [auto|]. split; [|auto].
-    rewrite K1, K2. cbn [s1 with_vhole with_vv pcc syms]. apply (R_run opp IFc false bits inits inits); auto.
+    intros s0 b0 i0 E. inversion E as [[X1 X2 X3]]. clear E. subst s0 b0 i0. split; [auto|]. split; [auto|]. split; [|split; [auto|]].
+    { rewrite K1, K2. cbn [s1 with_vhole with_vv pcc syms]. apply (R_run opp IFc false bits inits inits); auto. }
+    split; [discriminate|]. intros Lb E0. cbn [length] in Lb. assert (Eb : bits = []) by (destruct bits; [auto|cbn in Lb; lia]).
+    right. pose proof (from_corner_hist_k _ 0%Z s1 start s' I1 Gs Gvs Hh Ns1 Us E') as Cn.
+    rewrite !Z.add_0_r in Cn. symmetry. apply Cn; auto. intros _. cbn [s1 with_vhole with_vv syms]. rewrite (proj1 HC Eb). reflexivity.
 Qed.
 
 Lemma ec_fold_hist l : Forall (fun c => c < 3 * nf) l -> forall done st, ECinv c2v opp nf nv nh done st -> ECH st ->
@@ -879,12 +1096,37 @@ Proof.
   assert (H0 : ECH (EOk (init_est nf nv vh, @nil bool, @nil nat))).
   { intros s b i X. inversion X as [[Y1 Y2 Y3]]. cbn. split; [intros; constructor|].
     split; [split; [intros _; auto|intros v Hv0; cbn [init_est vv] in Hv0; rewrite nth_repeat_false in Hv0; discriminate]|]. split; [constructor|].
-    intros m1 m2 ic1 ic2 _ Z1. destruct m1; discriminate. }
+    split; [intros m1 m2 ic1 ic2 _ Z1; destruct m1; discriminate|]. split; [reflexivity|intros; left; reflexivity]. }
   pose proof (ec_fold_ok c2v opp nf nv nh hid Hlen OK Hv Hhl Hhr Hhb EH FI ENDH FANC _ Fa [] _ I0) as (s & bits & inits & Ef & I & Fi & Cb & CL & DN & T3).
-  pose proof (ec_fold_hist _ Fa [] _ I0 H0 s bits inits Ef) as (Hh & Ns & HR & HD).
+  pose proof (ec_fold_hist _ Fa [] _ I0 H0 s bits inits Ef) as (Hh & Ns & HR & HD & HC).
   rewrite Ef in E. cbn [ebind] in E. inversion E; subst o. cbn [o_syms o_events o_bits o_pcc].
   exists s, bits, inits. split; [reflexivity|]. split; [reflexivity|]. split; [reflexivity|]. split; [reflexivity|].
   split; [exact I|]. split; [exact Fi|]. split; [exact Cb|]. split; [exact Hh|]. split; [exact Ns|]. split; [exact HR|exact HD].
+Qed.
+
+(** one start-face bit, no split event: #E = #S + 1 over the output symbols *)
+Theorem encode_cnt vh niso ndeg o : length vh = nh ->
+  find_holes c2v opp nv = EOk (hid, vh) ->
+  eb_encode c2v opp nv niso ndeg = EOk o ->
+  length (o_bits o) = 1 -> o_events o = [] -> o_syms o = [] \/ ideal (rev (o_syms o)) = 0%Z.
+Proof.
+  intros Lh FH E. unfold eb_encode in E. rewrite NF_eq in E. destruct (nf =? ndeg); [discriminate|]. rewrite FH in E. cbn [ebind] in E.
+  rewrite (NC_eq c2v nf Hlen) in E.
+  assert (Fa : Forall (fun c => c < 3 * nf) (seq 0 (3 * nf))).
+  { apply Forall_forall. intros x Hx. apply in_seq in Hx. lia. }
+  assert (I0 : ECinv c2v opp nf nv nh [] (EOk (init_est nf nv vh, [], []))).
+  { exists (init_est nf nv vh), [], []. split; auto. split. apply (init_Inv c2v opp); auto. split; auto. split; auto.
+    split; [|split; [intros i []|simpl; lia]]. intros x y (_ & Vx & _). cbn [init_est vf] in Vx. rewrite nth_repeat_false in Vx. discriminate. }
+  assert (H0 : ECH (EOk (init_est nf nv vh, @nil bool, @nil nat))).
+  { intros s b i X. inversion X as [[Y1 Y2 Y3]]. cbn. split; [intros; constructor|].
+    split; [split; [intros _; auto|intros v Hv0; cbn [init_est vv] in Hv0; rewrite nth_repeat_false in Hv0; discriminate]|]. split; [constructor|].
+    split; [intros m1 m2 ic1 ic2 _ Z1; destruct m1; discriminate|]. split; [reflexivity|intros; left; reflexivity]. }
+  pose proof (ec_fold_ok c2v opp nf nv nh hid Hlen OK Hv Hhl Hhr Hhb EH FI ENDH FANC _ Fa [] _ I0) as (s & bits & inits & Ef & I & Fi & Cb & CL & DN & T3).
+  pose proof (ec_fold_hist _ Fa [] _ I0 H0 s bits inits Ef) as (_ & _ & _ & _ & HC).
+  rewrite Ef in E. cbn [ebind] in E. inversion E; subst o. cbn [o_syms o_events o_bits o_pcc].
+  intros Lb Ev. rewrite rev_length in Lb. rewrite rev_involutive.
+  assert (Ev' : evs s = []) by (destruct (evs s) as [|e l]; [auto|apply (f_equal (@length _)) in Ev; rewrite rev_length in Ev; cbn in Ev; lia]).
+  destruct (proj2 HC Lb Ev') as [X|X]; [left; rewrite X; reflexivity|right; exact X].
 Qed.
 
 Lemma nvis_of_vis P I k o : k < length P -> NoDup (faces (P ++ I)) -> vis_o (skipn (S k) P) (faces I) o -> nvis (P ++ I) k o.
@@ -974,6 +1216,30 @@ Qed.
 End Enc.
 
 (** for every well-formed table (C13's invariants as hypotheses) *)
+Theorem encode_count_wf c2v opp nf nv niso ndeg o :
+  length c2v = 3 * nf -> opp_ok c2v opp -> (forall c, c < 3 * nf -> vtx c2v c < nv) -> one_fan c2v opp ->
+  eb_encode c2v opp nv niso ndeg = EOk o -> length (o_bits o) = 1 -> o_events o = [] ->
+  o_syms o = [] \/ ideal (rev (o_syms o)) = 0%Z.
+Proof.
+  intros Hlen OK Hv FAN E.
+  assert (FAN' : forall c c', c < 3 * nf -> c' < 3 * nf -> is_degenerated c2v (c / 3) = false ->
+     is_degenerated c2v (c' / 3) = false -> vtx c2v c = vtx c2v c' ->
+     reach (swing_right opp) c c' \/ reach (swing_right opp) c' c).
+  { intros. apply FAN; auto; lia. }
+  destruct (find_holes_ok c2v opp nf nv Hlen OK Hv) as (hid & vh & EH & I & B).
+  apply (encode_cnt c2v opp nf nv (length vh) hid Hlen OK Hv) with (vh := vh) (niso := niso) (ndeg := ndeg); auto.
+  + apply I.
+  + apply I.
+  + intros j Hj Dj Oj. apply B. split; auto.
+  + intros v Hv0. destruct I as (_ & _ & I3). destruct (I3 v Hv0) as (j & (A1 & A2 & A3) & A4). exists j. auto.
+  + intros s c first. apply (encode_hole_ok c2v opp nf nv Hlen OK Hv FAN' hid vh I).
+  + intros f. apply (find_init_ok c2v opp nf nv Hlen OK Hv FAN' hid vh I).
+  + intros sf cl new vfl RP ND VN L. apply (run_end c2v opp nf hid Hlen OK FAN') with (sf := sf) (cl := cl) (new := new); auto.
+    intros j Hj Dj Oj. apply B. split; auto.
+  + intros vfl a b CL VN Ha Hb Da Db Ev Hvis. apply (fan_closed c2v opp nf hid Hlen OK FAN') with (a := a); auto.
+    intros j Hj Dj Oj. apply B. split; auto.
+Qed.
+
 Theorem encode_facts_wf c2v opp nf nv niso ndeg o :
   length c2v = 3 * nf -> opp_ok c2v opp -> (forall c, c < 3 * nf -> vtx c2v c < nv) -> one_fan c2v opp ->
   eb_encode c2v opp nv niso ndeg = EOk o ->
